@@ -77,19 +77,22 @@ pub struct Case {
     /// number of blocks per chromosome (items_per_slot = 1, so items = blocks)
     pub split: Vec<u32>,
     pub cached: bool,
+    /// every position is shifted by this much (coordinates beyond 2^31, up to the top of u32)
+    #[serde(default)]
+    pub offset: u32,
 }
 
 pub struct C05;
 
 const STEP: u32 = 10;
 
-fn build_bw(split: &[u32]) -> BwInput {
+fn build_bw(split: &[u32], offset: u32) -> BwInput {
     let mut chroms = vec![];
     for (ci, n) in split.iter().enumerate() {
         let mut vals = vec![];
         for i in 0..*n {
             // disjoint, touching neighbours every third block, gap otherwise; one zoom record each
-            let s = i * STEP;
+            let s = offset + i * STEP;
             vals.push(BwVal {
                 s,
                 e: s + if i % 3 == 0 { STEP } else { STEP - 2 },
@@ -98,19 +101,19 @@ fn build_bw(split: &[u32]) -> BwInput {
         }
         chroms.push(BwChrom {
             name: format!("c{}", ci),
-            size: n * STEP + 5,
+            size: offset + n * STEP + 5,
             vals,
         });
     }
     BwInput { chroms, unused: vec![] }
 }
 
-fn build_bb(split: &[u32]) -> BbInput {
+fn build_bb(split: &[u32], offset: u32) -> BbInput {
     let mut chroms = vec![];
     for (ci, n) in split.iter().enumerate() {
         let mut entries = vec![];
         for i in 0..*n {
-            let s = i * STEP;
+            let s = offset + i * STEP;
             // every fourth entry is long (covers many later blocks), every seventh very long
             let len = if i % 7 == 0 {
                 STEP * 40
@@ -127,7 +130,7 @@ fn build_bb(split: &[u32]) -> BbInput {
         }
         chroms.push(BbChrom {
             name: format!("c{}", ci),
-            size: n * STEP + STEP * 41,
+            size: offset + n * STEP + STEP * 41,
             entries,
         });
     }
@@ -263,8 +266,9 @@ impl Prop for C05 {
             2u32..=maxb,
             proptest::collection::vec(1u32..=140, 1..=4),
             any::<bool>(),
+            prop_oneof![3 => Just(0u32), 1 => Just((1u32 << 31) - 35), 1 => Just(3_000_000_000u32), 1 => Just(u32::MAX - 8000)],
         )
-            .prop_map(|(kind, b, split, cached)| Case { kind, b, split, cached })
+            .prop_map(|(kind, b, split, cached, offset)| Case { kind, b, split, cached, offset })
             .boxed()
     }
     fn fixed_cases(tier: Tier) -> Vec<Case> {
@@ -279,6 +283,8 @@ impl Prop for C05 {
                             b,
                             split: split.clone(),
                             cached: (n + b) % 5 == 0,
+                            // a tenth of the grid sits astride 2^31 or at the top of the coordinate range
+                            offset: match (n * 7 + b) % 20 { 3 => (1u32 << 31) - 35, 11 => u32::MAX - 8000, _ => 0 },
                         });
                     }
                 }
@@ -292,11 +298,12 @@ impl Prop for C05 {
         obs.label(&format!("chroms={}", c.split.len()));
         obs.label(if c.kind == Kind::BigWig { "bigwig+zoom-index" } else { "bigbed-nonmonotone-ends" });
         obs.label_if(c.cached, "cached-reader");
+        obs.label_if(c.offset > 0, "coordinates-beyond-2^31");
         let sink = SharedSink::new();
         let o = grid_opts(c.b, c.kind == Kind::BigWig);
         match c.kind {
             Kind::BigWig => {
-                let input = build_bw(&c.split);
+                let input = build_bw(&c.split, c.offset);
                 drive::write_bw(&input, &o, sink.clone()).map_err(|e| format!("writer refused the grid input: {}", e))?;
                 let bytes = sink.bytes();
                 let d = decode::decode(&bytes).map_err(|e| format!("independent decoder rejects the file: {}", e))?;
@@ -381,7 +388,7 @@ impl Prop for C05 {
                 }
             }
             Kind::BigBed => {
-                let input = build_bb(&c.split);
+                let input = build_bb(&c.split, c.offset);
                 drive::write_bb(&input, &o, sink.clone()).map_err(|e| format!("writer refused the grid input: {}", e))?;
                 let bytes = sink.bytes();
                 let d = decode::decode(&bytes).map_err(|e| format!("independent decoder rejects the file: {}", e))?;
